@@ -145,6 +145,11 @@ def run(repo: Repo, rep: Report, tier: str) -> None:
         rep.violation("R10.6", fi.key, "no is_hashable(ftype) guard", "an unhashable type key would raise instead of skipping customization", loc=fi.loc)
     from ..core import regget
     regget.report(repo, rep, "R10.7", {"annotated-innermost", "real-type"})
+    # rules of sibling properties that are necessary conditions of this one as well (same rule ids)
+    from ..core.report import Only
+    from ..core import corpus as _corpus
+    from . import c13 as _c13
+    _c13._slots(repo, Only(rep, {"R13.3"}), _corpus.explore_all(repo, tier))
 
 def _r10_3(repo: Repo, rep: Report) -> None:
     seq: List[Tuple[str, List[str]]] = []
